@@ -1007,7 +1007,8 @@ Definition raw_agrees (sc : list sentry) (raw : list Z) : bool :=
 Definition closed_agrees (p : prog) (fuel : nat) (tail : Q) (o : nrt_obs) : bool :=
   let st := nrt_loop repaired p fuel (nrt_main repaired p) in
   nrt_completed repaired p fuel && list_eqb event_eqb (rev (n_log st)) (no_events o)
-  && score_eqb (n_score (nrt_run_closed_inside repaired p fuel tail)) (no_score o) && Qeq_bool (n_mtime st) (no_elapsed o).
+  && score_eqb (n_score (nrt_run_closed_inside repaired p fuel tail)) (no_score o) && Qeq_bool (n_mtime st) (no_elapsed o)
+  && score_in_domain (n_score (nrt_run_closed_inside repaired p fuel tail)).
 """
 
 
@@ -1024,3 +1025,112 @@ def close_monitor(p, o):
         return ('score closed from inside a routine at logical time %s with tailtime %s (last bundle at %s): the marker is %s, expected the last '
                 'entry at %s' % (T, p['close']['tail'], max(others), [str(m) for m in marks] or 'missing', exp))
     return None
+
+
+# ------------------------------------------------------------------ round 5 (a): routines stepped with next() from outside any clock
+def gen_nextdrive(rng, k, rt=False):
+    """A routine stepped with next() from the MAIN thread (no clock), optionally through a second routine, or from inside a late
+    routine on every kind of clock; at each step it sends bundles (nested, every latency kind).  Stamps vs the Coq kernel at the
+    logical time the routine reports; in RT from the main thread that time must lie between two readings of the harness."""
+    hosts = [None, None, 'S', ['T', 0], ['T', 1]] + ([] if rt else ['A'])
+    host = hosts[k % len(hosts)]
+    steps = []
+    for _ in range(rng.randint(2, 4)):
+        sends = []
+        for _ in range(rng.randint(1, 2)):
+            lat = rng.choice(LATS)
+            sends.append([lat, gen_elems(rng, lat, 2, valid=rng.random() < 0.9)])
+        steps.append(sends)
+    scale = Fraction(1, 32) if rt else Fraction(1)
+    return {'tempos': rng.sample(['2', '1/2', '4'], 2), 'host': host, 'wrap': host is None and k % 2 == 1, 'steps': steps,
+            'start': str(Fraction(rng.choice(['1/4', '1/2', '1'])) * scale), 'ints': rng.random() < 0.4}
+
+
+def nextdrive_items(pr, o, mode):
+    """-> (coq items, direct failures)"""
+    items, bad = [], []
+    for j, rec in enumerate(o['steps']):
+        T = rec['T']
+        if 'bounds' in rec and not (Fraction(rec['bounds'][0]) <= Fraction(T) <= Fraction(rec['bounds'][1])):
+            bad.append('step %d: the routine stepped with next() from the main thread ran at logical time %s, but the physical clock read %s just '
+                       'before and %s just after the call (outside a clock wake-up the main thread\'s time is the current time)'
+                       % (j, T, rec['bounds'][0], rec['bounds'][1]))
+        if 'outer_T' in rec and Fraction(rec['outer_T']) != Fraction(T):
+            bad.append('step %d: a routine stepped with next() inside a routine at logical time %s ran at %s' % (j, rec['outer_T'], T))
+        for sd in rec['sends']:
+            md = '(MRt %s)' % cz(int(o['osc_offset'])) if mode == 'rt' else '(MNrt true)'
+            obs = 'None' if sd['raised'] else '(Some %s)' % selem(sd['tree'])
+            items.append('(agree (stamp_bundle %s %s %s %s) %s)' % (md, q(T), olat(sd['lat']), clist(sd['es'], elem), obs))
+    return items, bad
+
+
+# ------------------------------------------------------------------ round 5 (b): TempoClock state changes, then the routine keeps sending
+CLOCK_CHANGES = ['tempo', 'etempo', 'beats', 'bpb']
+
+
+def gen_clockseq(rng, k, rt=False):
+    kinds = [c for c in CLOCK_CHANGES if not (rt and c == 'etempo')]     # etempo anchors at PHYSICAL time in RT (documented)
+    scale = Fraction(1, 64) if rt else Fraction(1)
+    seq = [['send', rng.choice(['0', '1/4', None])], ['yield', str(Fraction(rng.choice(['1/4', '1/2', '1'])) * scale)]]
+    pos = Fraction(100)
+    for j in range(rng.randint(2, 4)):
+        ch = kinds[(k + j) % len(kinds)]
+        if ch in ('tempo', 'etempo'):
+            seq.append([ch, rng.choice(['1', '2', '4', '1/2'])])
+        elif ch == 'beats':
+            pos += rng.randint(1, 64)
+            seq.append(['beats', str(pos if rt else Fraction(rng.randint(0, 64), 8))])   # RT: forward only (no waiting)
+        else:
+            seq.append(['bpb', rng.choice(['3', '4', '5', '7/2'])])
+        for _ in range(rng.randint(1, 3)):
+            seq.append(['yield', str(Fraction(rng.choice(['0', '1/4', '1/2', '1', '3/4'])) * scale)])
+            seq.append(['send', rng.choice(['0', '1/4', '1/8', None, '-1/4', '1'])])
+    return {'tempo': rng.choice(['1', '2', '4', '1/2']), 'seq': seq, 'start': str(Fraction(rng.choice(['1/4', '1/2', '1'])) * scale),
+            'ints': rng.random() < 0.4}
+
+
+def clockseq_expected(pr, o, mode):
+    F = Fraction
+    if 'fatal' in o:
+        return [('probe crashed', o['fatal'][-300:], '')]
+    if not o.get('done'):
+        return None
+    bad = []
+    tr = list(o['trace'])
+    t, bs, bb = F(pr['tempo']), F(o['clock_base']), F(0)
+    first = tr.pop(0)
+    T, key = F(first[1]), F(first[2])
+    if key != (T - bs) * t + bb:
+        bad.append(('beats at the first resumption', str(key), str((T - bs) * t + bb)))
+    done = []
+    for st in pr['seq']:
+        k = st[0]
+        done.append(st)
+        if k in ('tempo', 'etempo'):
+            cur = (T - bs) * t + bb
+            bb, bs, t = cur, T, F(st[1])
+        elif k == 'beats':
+            bs, bb = T, F(st[1])
+        elif k == 'yield':
+            key += F(st[1])
+            T = (key - bb) / t + bs
+            got = tr.pop(0)
+            if F(got[1]) != T or F(got[2]) != key:
+                bad.append(('after %s: logical seconds / beats at the next resumption' % json.dumps(done[-6:]), '%s / %s' % (got[1], got[2]), '%s / %s' % (T, key)))
+                break
+        elif k == 'send':
+            got = tr.pop(0)
+            lat = st[1]
+            imm = lat is None or F(lat) < 0
+            due = T + (F(0) if imm else F(lat))
+            if mode == 'nrt':
+                if F(got[2]) != due or int(got[3]) != int(due * (1 << 32)):
+                    bad.append(('bundle sent with latency %s at logical time %s after %s: score time / timetag' % (lat, T, json.dumps(done[-5:-1])),
+                                '%s / %s' % (got[2], got[3]), '%s / %s' % (due, int(due * (1 << 32)))))
+                    break
+            else:
+                exp = 1 if imm else int(due * (1 << 32)) + int(o['osc_offset'])
+                if int(got[3]) != exp:
+                    bad.append(('bundle sent with latency %s at logical time %s after %s: timetag' % (lat, T, json.dumps(done[-5:-1])), got[3], str(exp)))
+                    break
+    return bad
